@@ -21,8 +21,8 @@ TRUSTED = ["model: C10.access / C10.save (lean/Srctools/Model/C10.lean) over the
            "the reader/writer view dependencies used by the driver on a concrete file are the ones traced on that file "
            "(harness/c10_util.Tracer) and are checked to be a subset of the statically extracted ones",
            "LZMA (lzma module), zipfile: decompress(compress b) = b assumed; exercised, not proved"]
-NOT_MODELLED = ["17 of the 21 lump codecs (abstract in the model, hypothesis rd(wr(rd x)) = rd x at the file's parse; exercised by the round trip "
-                "on the implementation here); planes, vertexes, cubemaps, visibility use C11's concrete reader/writer models (C10_content_concrete)",
+NOT_MODELLED = ["16 of the 21 lump codecs (abstract in the model, hypothesis rd(wr(rd x)) = rd x at the file's parse; exercised by the round trip "
+                "on the implementation here); planes, vertexes, cubemaps, textures, visibility use C11's concrete reader/writer models (C10_content_concrete)",
                 "mutation of other views' objects by readers other than the bmodels/ents `model` key (faces set orig_face.texinfo / hammer_id)",
                 "DeferredWrites / AtomicWriter mechanics (C12); file offsets are modelled as prefix sums (Model/C10Bytes.lean)"]
 ASSUMPTIONS = ["the input file is well formed: FACEIDS has one entry per face, a vertex (0,0,0) exists, floats are float32 values, "
